@@ -49,12 +49,36 @@ def check(pid, tier, seed, replay=None):
             cases = cases_of(r, rng)
             sim = tlc(mdir, "MCConsole", cfg % ("ThoroughNames", 6), workers=1, simulate=20000 if thorough else 4000, depth=8, seed=seed, timeout=900, cfg_name="cons_sim.cfg")
             cases += cases_of(sim, rng)
+            # every event of the C01 generator through the default configuration
+            from checks import logger as L
+            from concretize import Gen
+            from vlib import copy_specs as _cs
+            ldir = sc.sub("tlc-logger")
+            _cs("logger", ldir)
+            ex = L.enumerate_programs(ldir, 9, 2, emit=True, workers=1, simulate=8000 if thorough else 2500, seed=seed, depth=40, opset="Ops")
+            g = Gen(seed)
+            progs = [p for p in (g.program("p%d" % i, ap) for i, ap in enumerate(L.abstract_programs(ex))) if p is not None]
+            lp = go_build("./players/logger", sc.path("lp-json"))
+            lrecs = run_player(lp, sc, "events", [json.dumps(p) for p in progs], shards=8, per_script=False, extra_args=["-bytes"])
+            nraw = 0
+            for _, rr in lrecs:
+                for ln in rr[1:]:
+                    e = json.loads(ln)
+                    if e.get("out") and e.get("nw") == 1 and e.get("gojson"):
+                        cases.append({"raw": e["out"], "ev": [], "vc": [], "cfg": {"parts": [], "pexcl": [], "forder": [], "fexcl": []}})
+                        nraw += 1
+            log("%s: + %d generated events" % (pid, nraw))
         log("%s: %d cases %.0fs" % (pid, len(cases), time.time() - t0))
         scripts = [json.dumps({"fam": "console", "conf": "x", "id": "c%d" % i, "ops": cases[i:i + 500]}) for i in range(0, len(cases), 500)]
         recs = run_player(player, sc, "console", scripts, shards=NCPU)
         bads = validate_sharded(sc.dir, "ConsoleTrace", "hist.ndjson", [rr for _, rr in recs], NCPU, FAMILY,
                                 constants=" Names <- QuickNames\n MaxFields = 2\n Configs <- AllConfigs")
         for ri, k, e, sig in bads:
+            if e["a"] == "Raw":
+                script = json.loads(recs[ri][0])
+                v.violation("a generated event is not rendered: n=%s of %s err=%s same=%s oneline=%s" % (e["n"], e["inlen"], e["err"], e["same"], e["oneline"]),
+                            {"property": pid, "case": script["ops"][k - 1] if k - 1 < len(script["ops"]) else None, "record": e})
+                continue
             v.violation("event %s / %s under %s rendered as %r (parts %s fields %s n=%s err=%s)" % (e["ev"], e["vc"], json.dumps(e["cfg"]), e["line"][:200], e["gotparts"], e["gotfields"], e["n"], e["err"]),
                         {"property": pid, "case": {"ev": e["ev"], "vc": e["vc"], "cfg": e["cfg"]}, "record": e})
         n = sum(len(rr) - 1 for _, rr in recs)
